@@ -396,6 +396,13 @@ func (g *Gen) convert(st *State, x *ssa.Convert) Val {
 			return Val{T: g.newSym("str", "Int"), Kind: "int"}
 		}
 		return Val{T: g.arr(st, a), Len: a.Len, Off: a.Off, Kind: "str"}
+	case toSlice && a.Kind == "str" && !isByteSlice(x.Type()):
+		// []rune(s): a fresh slice of at most len(s) runes whose values are not modelled
+		r := g.freshRef(st)
+		l := g.newSym("runes_len", "Int")
+		g.assume(st, fmt.Sprintf("(and (<= 0 %s) (<= %s %s))", l, l, a.Len))
+		g.noteElemRange(st, r, x.Type().Underlying().(*types.Slice).Elem())
+		return Val{Ref: r, Len: l, Off: "0", Kind: "slice", Ty: x.Type()}
 	case toSlice && a.Kind == "str":
 		r := g.freshRef(st)
 		g.setHs(st, r, a.T)
